@@ -84,6 +84,11 @@ func mergeValues(old, v *Node, path []string, pol PolicyFn) *Node {
 	if old == nil {
 		return v.Copy()
 	}
+	if old.Kind == KNil && v.Kind == KNil {
+		// not both containers: B's value - nil (the library stored an empty
+		// object here until d2cf464)
+		return v.Copy()
+	}
 	var subOld, subV *Node
 	switch {
 	case old.IsSub():
